@@ -2,7 +2,7 @@
 GENERATED import list — regenerate with `python3 tools/gen_all_imports.py` (from /verif); do not edit the
 imports by hand. `python3 tools/gen_all_imports.py --check` fails if a module on disk is not imported here.
 
-Imports every module of the libraries QmcModel, QmcProofs, QmcProps (218 modules), so that
+Imports every module of the libraries QmcModel, QmcProofs, QmcProps (219 modules), so that
 `lake build QmcAll` certifies that the whole development type-checks in ONE environment: no two modules
 declare the same name (Lean: "environment already contains …"). See design_notes/Cleanup.md.
 
@@ -90,6 +90,7 @@ import QmcProofs.FastOpsGlobalCanon
 import QmcProofs.FastOpsGlobalStep
 import QmcProofs.FastOpsHint
 import QmcProofs.FastOpsHintIter
+import QmcProofs.FastOpsHintRecycle
 import QmcProofs.FastOpsInstallList
 import QmcProofs.FastOpsInv
 import QmcProofs.FastOpsNth
